@@ -84,7 +84,14 @@ def main():
             json.dump(meta, open(os.path.join(dst, "meta.json"), "w"), indent=1)
             summary.append((key, "kept", ", ".join("%s:%s" % (k, "/".join(x.split(" @ ")[0] for x in v)) for k, v in sorted(fired.items())) or "MISSED"))
             print(key, summary[-1][1], summary[-1][2], flush=True)
-    json.dump(summary, open(os.path.join(out_root, "SUMMARY.json"), "w"), indent=1)
+    # the summary always covers every kept change (rebuilt from the meta files)
+    allsum = []
+    for d in sorted(os.listdir(out_root)):
+        mp = os.path.join(out_root, d, "meta.json")
+        if os.path.exists(mp):
+            m = json.load(open(mp))
+            allsum.append((m["id"], "kept", ", ".join("%s:%s" % (k, "/".join(sorted({x.split(" @ ")[0] for x in v}))) for k, v in sorted(m["caught_by"].items())) or "MISSED"))
+    json.dump(allsum, open(os.path.join(out_root, "SUMMARY.json"), "w"), indent=1)
 
 
 if __name__ == "__main__":
